@@ -133,7 +133,8 @@ def gen():
             and T.dotted(c2.value.args[0]) == "self.data" and T.dotted(c2.value.args[1]) == var):
         T.fail(REL, fn, "push does not end with hq.heappush(self.data, item)")
 
-    out = T.header("C20: PriorityItem comparator and PriorityQueue plumbing", parts)
+    uf_text = gen_uf(parts)
+    out = T.header("C20: PriorityItem comparator, PriorityQueue plumbing, UnionFind constructor", parts)
     out += """From Coq Require Import ZArith List Bool.
 Import ListNotations.
 Require Import MV.C20.Model.
@@ -149,4 +150,74 @@ Definition pq_pop := pq_get.
 Definition pq_empty (d : list item) : bool := %s.
 Definition pq_front (d : list item) : option item := nth_error d %d.
 """ % (item_lt, mk, pq_empty, front_idx)
+    out += uf_text
     return {"C20/Gen.v": out}
+
+
+UF_REL = "mouette/utils/unionfind.py"
+UF_FIELDS = {"_elts": "list", "_par": "list", "_siz": "list", "_indx": "dict", "n_comps": "int", "n_elts": "int",
+             "_next": "int"}
+
+
+def gen_uf(parts):
+    """UnionFind.__init__: the seven fields are initialised to constants, `None` stands for the empty container,
+    and every element of the container goes through `self.add`. Anything else fails closed."""
+    src, tree = T.load(UF_REL)
+    fn = T.find_def(tree, "UnionFind.__init__", UF_REL)
+    parts.append(("UnionFind.__init__", T.sha(src, fn)))
+    params = [a.arg for a in fn.args.args]
+    if len(params) != 2 or params[0] != "self" or fn.args.vararg or fn.args.kwarg or fn.args.kwonlyargs:
+        T.fail(UF_REL, fn, "__init__ does not take (self, elements)")
+    arg = params[1]
+    dflt = fn.args.defaults
+    if not (len(dflt) == 1 and isinstance(dflt[0], ast.Constant) and dflt[0].value is None):
+        T.fail(UF_REL, fn, "the default of `%s` is not None" % arg)
+    init = {}
+    none_case = None
+    loop = None
+    for st in T.body_nodoc(fn):
+        if isinstance(st, ast.Assign) and len(st.targets) == 1 and (T.dotted(st.targets[0]) or "").startswith("self."):
+            if none_case is not None or loop is not None:
+                T.fail(UF_REL, st, "field assignment after the element loop / None test")
+            f = T.dotted(st.targets[0])[5:]
+            if f not in UF_FIELDS or f in init:
+                T.fail(UF_REL, st, "unexpected or repeated field %s" % f)
+            v = st.value
+            kind = UF_FIELDS[f]
+            if kind == "int" and isinstance(v, ast.Constant) and type(v.value) is int and v.value >= 0:
+                init[f] = "%d" % v.value
+            elif kind == "list" and isinstance(v, ast.List) and not v.elts:
+                init[f] = "[]"
+            elif kind == "dict" and isinstance(v, ast.Dict) and not v.keys:
+                init[f] = "[]"
+            else:
+                T.fail(UF_REL, st, "field %s is not initialised to an empty %s / a natural number" % (f, kind))
+        elif isinstance(st, ast.If):
+            ok = (none_case is None and loop is None and not st.orelse and isinstance(st.test, ast.Compare)
+                  and T.dotted(st.test.left) == arg and len(st.test.ops) == 1 and isinstance(st.test.ops[0], ast.Is)
+                  and isinstance(st.test.comparators[0], ast.Constant) and st.test.comparators[0].value is None
+                  and len(st.body) == 1 and isinstance(st.body[0], ast.Assign) and T.dotted(st.body[0].targets[0]) == arg
+                  and isinstance(st.body[0].value, (ast.List, ast.Tuple)) and not st.body[0].value.elts)
+            if not ok:
+                T.fail(UF_REL, st, "not `if %s is None: %s = []`" % (arg, arg))
+            none_case = "[]"
+        elif isinstance(st, ast.For):
+            ok = (loop is None and not st.orelse and isinstance(st.target, ast.Name) and T.dotted(st.iter) == arg
+                  and len(st.body) == 1 and isinstance(st.body[0], ast.Expr) and isinstance(st.body[0].value, ast.Call)
+                  and T.dotted(st.body[0].value.func) == "self.add" and len(st.body[0].value.args) == 1
+                  and not st.body[0].value.keywords and T.dotted(st.body[0].value.args[0]) == st.target.id)
+            if not ok:
+                T.fail(UF_REL, st, "not `for elt in %s: self.add(elt)`" % arg)
+            loop = True
+        else:
+            T.fail(UF_REL, st, "unexpected statement in __init__")
+    if set(init) != set(UF_FIELDS):
+        T.fail(UF_REL, fn, "fields not all initialised: missing %s" % sorted(set(UF_FIELDS) - set(init)))
+    if none_case is None or not loop:
+        T.fail(UF_REL, fn, "__init__ lacks the None test or the `self.add` loop")
+    return """
+(* UnionFind.__init__(elements=None) *)
+Definition uf_new : uf := mkuf %s %s %s %s %s %s %s.
+Definition uf_init_none : list Z := %s.
+Definition uf_init (elements : list Z) : uf := fold_left (fun s elt => add s elt) elements uf_new.
+""" % (init["_elts"], init["_par"], init["_siz"], init["n_comps"], init["n_elts"], init["_next"], init["_indx"], none_case)
